@@ -43,3 +43,19 @@ class Box(object):
     def close(self):
         if self.dir and os.path.isdir(self.dir):
             shutil.rmtree(self.dir, ignore_errors=True)
+
+
+def _snapshot(box):
+    """Byte-level picture of the store behind a Box (what 'nothing is created, changed or saved' is judged on)."""
+    if box.kind == 'mem':
+        return tuple(sorted((k, v) for k, v in box.cassette._recordings.items()))
+    if box.kind == 'file':
+        out = []
+        for fn in sorted(os.listdir(box.dir)):
+            with open(os.path.join(box.dir, fn), 'rb') as f:
+                out.append((fn, f.read()))
+        return tuple(out)
+    return tuple(sorted((k, v[0]) for k, v in box.store.objs.items())) + (len(box.store.log),)
+
+
+Box.snapshot = _snapshot
